@@ -318,8 +318,8 @@ Definition wq : query :=
 Definition wdata : list raw :=
   [ {| r_tags := [0; 1; 1]; r_slots := [[1;1;1]; [1;1;1]; [1;1;1]; [1;1;1]] |};
     {| r_tags := [0; 2; 1]; r_slots := [[5]; [5]; []; [5]] |} ].
-Definition sel_plain (w : what) := {| s_what := w; s_by := false |}.
-Definition sel_by (w : what) := {| s_what := w; s_by := true |}.
+Definition sel_plain (w : what) := {| s_what := w; s_by := None |}.
+Definition sel_by (w : what) := {| s_what := w; s_by := Some [0; 1; 2]%nat |}.
 
 Definition same_result (a b : list series) : bool :=
   Nat.eqb (length a) (length b) &&
